@@ -27,7 +27,7 @@ class CandlestickType(ABC):
         if len(candles) == 0 or not candles[0].tag:
             return 0
 
-        for index in range(len(candles) - 1, 0, -1):
+        for index in range(len(candles) - 1, -1, -1):
             if self.name == candles[index].tag:
                 return index + 1
         return len(candles)
